@@ -24,12 +24,11 @@ theorem exec_goto (n : Nat) (s : St) (loc : Nat) (h : (loc : Int) ≤ curSize s)
   have h1 : ¬ (curSize s < (loc : Int)) := by omega
   vmsimp [h0, h1]
 
-theorem exec_prepareCall_fixed (n : Nat) (s : St) (x : String) (nargs id f : Nat)
-    (_hb : coreBuiltins.contains x = false) (hl : lexLookup s x = some (id, .fn f))
-    (hv : (fnOf s f).varargs = false) :
+theorem exec_prepareCall_fixed (n : Nat) (s : St) (x : String) (nargs : Nat)
+    (hv : (fnOf s s.curfunc).varargs = false) :
     (exec (n+1) (.prepareCall x nargs)).run s = (.ok (), { s with pc := s.pc + 1 }) := by
   simp only [exec]
-  vmsimp [_hb, hl, hv]
+  vmsimp [hv]
 
 theorem exec_addFuncScope (n : Nat) (s : St) (t : Nat) :
     (exec (n+1) (.addFuncScope t)).run s =
@@ -179,69 +178,93 @@ theorem tail_sequence (st : CtlState) (fuel : Nat) (s : St) (p : Nat) (x : Strin
     simp [hs2, hs1]
   rw [this]
 
-/-- `PrepareCall` for a variadic function, more operands than fixed parameters: the extra
-ones are packed into one list. -/
-theorem exec_prepareCall_varargs_gt (n : Nat) (s : St) (x : String) (nargs sid f : Nat) (vs : List Val)
-    (hb : coreBuiltins.contains x = false) (hl : lexLookup s x = some (sid, .fn f))
-    (hv : (fnOf s f).varargs = true) (hgt : (fnOf s f).nargs < nargs)
-    (hlen : nargs - (fnOf s f).nargs ≤ s.data.length)
-    (hm : (s.data.take (nargs - (fnOf s f).nargs)).mapM id = some vs) :
+/-- `PrepareCall` when the running function is variadic and there are more operands than fixed
+parameters: the extra ones are packed into one list. -/
+theorem exec_prepareCall_varargs_gt (n : Nat) (s : St) (x : String) (nargs : Nat) (vs : List Val)
+    (hu : (fnOf s s.curfunc).user = false)
+    (hv : (fnOf s s.curfunc).varargs = true) (hgt : (fnOf s s.curfunc).nargs < nargs)
+    (hlen : nargs - (fnOf s s.curfunc).nargs ≤ s.data.length)
+    (hm : (s.data.take (nargs - (fnOf s s.curfunc).nargs)).mapM id = some vs) :
     ∃ data', (exec (n+1) (.prepareCall x nargs)).run s = (.ok (), { s with pc := s.pc + 1, data := data' }) ∧
-      data' = some (mkList vs.reverse) :: s.data.drop (nargs - (fnOf s f).nargs) := by
+      data' = some (mkList vs.reverse) :: s.data.drop (nargs - (fnOf s s.curfunc).nargs) := by
   simp only [exec]
-  have hb' : x ∉ coreBuiltins := by simpa using hb
   refine ⟨_, ?_, rfl⟩
-  have h1 : ¬ nargs < (fnOf s f).nargs := by omega
-  have h2 : ¬ s.data.length < nargs - (fnOf s f).nargs := by omega
-  vmsimp [hb', hl, hv, wrangleOptargs, popN, h1, hgt, h2, hm]
+  have h1 : ¬ nargs < (fnOf s s.curfunc).nargs := by omega
+  have h2 : ¬ s.data.length < nargs - (fnOf s s.curfunc).nargs := by omega
+  vmsimp [hu, hv, wrangleOptargs, popN, h1, hgt, h2, hm]
 
-/-- `PrepareCall` for a variadic function with exactly the fixed operands: nil is pushed. -/
-theorem exec_prepareCall_varargs_eq (n : Nat) (s : St) (x : String) (nargs sid f : Nat)
-    (hb : coreBuiltins.contains x = false) (hl : lexLookup s x = some (sid, .fn f))
-    (hv : (fnOf s f).varargs = true) (heq : nargs = (fnOf s f).nargs) :
+/-- `PrepareCall` when the running function is variadic and exactly the fixed operands are
+there: nil is pushed. -/
+theorem exec_prepareCall_varargs_eq (n : Nat) (s : St) (x : String) (nargs : Nat)
+    (hu : (fnOf s s.curfunc).user = false)
+    (hv : (fnOf s s.curfunc).varargs = true) (heq : nargs = (fnOf s s.curfunc).nargs) :
     (exec (n+1) (.prepareCall x nargs)).run s = (.ok (), { s with pc := s.pc + 1, data := some Val.nil :: s.data }) := by
   simp only [exec]
-  have hb' : x ∉ coreBuiltins := by simpa using hb
-  have h1 : ¬ nargs < (fnOf s f).nargs := by omega
-  have h2 : ¬ (fnOf s f).nargs < nargs := by omega
-  vmsimp [hb', hl, hv, wrangleOptargs, h1, h2]
+  have h1 : ¬ nargs < (fnOf s s.curfunc).nargs := by omega
+  have h2 : ¬ (fnOf s s.curfunc).nargs < nargs := by omega
+  vmsimp [hu, hv, wrangleOptargs, h1, h2]
 
 /-- fixed parameter list: the operands are left as they are (the generator only emits the
 sequence when their number fits, fix c9a2ccf; `PrepareCall` itself does not look at it). -/
-theorem tail_sequence_fixed (st : CtlState) (fuel : Nat) (s : St) (p : Nat) (x : String) (nargs k sid f : Nat)
+theorem tail_sequence_fixed (st : CtlState) (fuel : Nat) (s : St) (p : Nat) (x : String) (nargs k : Nat)
     (rest : List Instr) (ext L : List (Option Nat))
     (hat : At s p (tailSeq x nargs k ++ rest))
-    (hb : coreBuiltins.contains x = false) (hl : lexLookup s x = some (sid, .fn f))
-    (hv : (fnOf s f).varargs = false)
+    (hv : (fnOf s s.curfunc).varargs = false)
     (hlin : s.linear = ext ++ L) (he : ext.length = k + 1) :
     (runLoop (fuel + 1 + (k + 3)) st).run s = (runLoop (fuel + 1) st).run { s with pc := 0, linear := L } := by
   have := tail_sequence st fuel s p x nargs k rest ext L s.data hat
-    (fun n => by simpa using exec_prepareCall_fixed n s x nargs sid f hb hl hv) hlin he
+    (fun n => by simpa using exec_prepareCall_fixed n s x nargs hv) hlin he
   simpa using this
 
 /-- variadic: the operands beyond the fixed ones are packed; `nargs_fixed + 1` operands remain. -/
-theorem tail_sequence_varargs (st : CtlState) (fuel : Nat) (s : St) (p : Nat) (x : String) (nargs k sid f : Nat)
+theorem tail_sequence_varargs (st : CtlState) (fuel : Nat) (s : St) (p : Nat) (x : String) (nargs k : Nat)
     (rest : List Instr) (ext L : List (Option Nat)) (vs : List Val)
     (hat : At s p (tailSeq x nargs k ++ rest))
-    (hb : coreBuiltins.contains x = false) (hl : lexLookup s x = some (sid, .fn f))
-    (hv : (fnOf s f).varargs = true) (ha : (fnOf s f).nargs ≤ nargs)
-    (hlen : nargs - (fnOf s f).nargs ≤ s.data.length)
-    (hm : (s.data.take (nargs - (fnOf s f).nargs)).mapM id = some vs)
+    (hv : (fnOf s s.curfunc).varargs = true) (ha : (fnOf s s.curfunc).nargs ≤ nargs)
+    (hlen : nargs - (fnOf s s.curfunc).nargs ≤ s.data.length)
+    (hm : (s.data.take (nargs - (fnOf s s.curfunc).nargs)).mapM id = some vs)
     (hlin : s.linear = ext ++ L) (he : ext.length = k + 1) :
-    ∃ data', data'.length + nargs = s.data.length + (fnOf s f).nargs + 1 ∧
+    ∃ data', data'.length + nargs = s.data.length + (fnOf s s.curfunc).nargs + 1 ∧
       (runLoop (fuel + 1 + (k + 3)) st).run s =
         (runLoop (fuel + 1) st).run { s with pc := 0, linear := L, data := data' } := by
-  by_cases hgt : (fnOf s f).nargs < nargs
-  · refine ⟨some (mkList vs.reverse) :: s.data.drop (nargs - (fnOf s f).nargs), by simp; omega, ?_⟩
+  have hu := hat.compiled
+  by_cases hgt : (fnOf s s.curfunc).nargs < nargs
+  · refine ⟨some (mkList vs.reverse) :: s.data.drop (nargs - (fnOf s s.curfunc).nargs), by simp; omega, ?_⟩
     apply tail_sequence st fuel s p x nargs k rest ext L _ hat _ hlin he
     intro n
-    obtain ⟨d, hd, rfl⟩ := exec_prepareCall_varargs_gt n s x nargs sid f vs hb hl hv hgt hlen hm
+    obtain ⟨d, hd, rfl⟩ := exec_prepareCall_varargs_gt n s x nargs vs hu hv hgt hlen hm
     exact hd
-  · have heq : nargs = (fnOf s f).nargs := by omega
+  · have heq : nargs = (fnOf s s.curfunc).nargs := by omega
     refine ⟨some Val.nil :: s.data, by simp; omega, ?_⟩
     apply tail_sequence st fuel s p x nargs k rest ext L _ hat _ hlin he
     intro n
-    exact exec_prepareCall_varargs_eq n s x nargs sid f hb hl hv heq
+    exact exec_prepareCall_varargs_eq n s x nargs hu hv heq
+
+/-! ## The guard in front of the tail sequence (fix C09-02) -/
+
+/-- the name still denotes the function object that is running: the guard falls through -/
+theorem exec_tailGuard_self (n : Nat) (s : St) (x : String) (skip sid : Nat)
+    (hl : lexLookup s x = some (sid, .fn s.curfunc)) :
+    (exec (n+1) (.tailGuard x skip)).run s = (.ok (), { s with pc := s.pc + 1 }) := by
+  simp only [exec]
+  vmsimp [hl]
+
+/-- the name denotes anything else (another function, another closure of the same template, a
+non-function, nothing at all): the guard skips `skip` instructions and changes nothing else -/
+theorem exec_tailGuard_other (n : Nat) (s : St) (x : String) (skip : Nat)
+    (hl : ∀ sid, lexLookup s x ≠ some (sid, .fn s.curfunc)) :
+    (exec (n+1) (.tailGuard x skip)).run s = (.ok (), { s with pc := s.pc + skip }) := by
+  simp only [exec]
+  cases hlk : lexLookup s x with
+  | none => vmsimp [hlk]
+  | some r =>
+    obtain ⟨sid, v⟩ := r
+    cases v with
+    | fn f =>
+      have hne : f ≠ s.curfunc := by
+        intro h; subst h; exact hl sid hlk
+      vmsimp [hlk, hne]
+    | _ => vmsimp [hlk]
 
 /-! ## Parameter binding writes only the scope on top of the scope stack -/
 
